@@ -1,5 +1,5 @@
 """Single source for MANIFEST.json (tools/gen_manifest.py)."""
-HOOK_COMMITS = []
+HOOK_COMMITS = ["ff3097a verif hook: read-only accessors to the spanner (H1)", "e313178 verif hook: demos print the active TBB parallelism limit (H2)"]
 
 WIP = "check not built yet in this round (work in progress; see DESIGN.md section 4 for the plan)"
 
@@ -49,6 +49,31 @@ CHECKS = {
     technique="CBMC DFCC loop contract with ghost edge on the extracted numbering loop against spanning_forest's contract (proved for m<=16) + bounded enforcement of the whole-class contract with union-find",
     text="Numbering loop proved (bijection, inverse lookups, off-forest edges numbered first, writes confined to reverse_index[0..m)) for m<=16 - the cap stems from ghost prefix counts, the code's loop is closed by its contract. Whole class and spanning_forest bounded on all labelled graphs n<=6 etc.",
     note="Assumes spanning_forest's contract inside the proof (enforced only bounded), and the std::map/std::vector/boost::edges bindings of the extraction."),
+ "C05": dict(
+    engine="E3", category="exploration", design_ref="DESIGN.md 4/C05, 3 (K18)",
+    technique="bounded enforcement of the approximate entry points' contract (basis of the caller's graph by descriptor identity, returned weight = caller weights) on the real templates; no deductive content",
+    text="Bounded stand-in only: exact-domain set (all labelled graphs n<=5/6, all weightings n<=4, families, seeded random) x k in {1,2,3,5,n} x {double,int}. Found and repaired: spanner descriptors leaked to the caller, weight omitted.",
+    note="Templates outside CBMC's reach. Use-after-free aspect observed under ASan in C07."),
+ "C06": dict(
+    engine="E3", category="exploration", design_ref="DESIGN.md 4/C06, 3 (K18)",
+    technique="bounded enforcement of ret <= (2k-1)*OPT, k=1 exact, k=0 rejected, against the brute-force optimum; no deductive content",
+    text="Bounded stand-in only over the exact-domain set x k in {0,1,2,3,5,n}.",
+    note="OPT from brute force (cross-checked with a Horton oracle); sequential approximate entry points (the TBB ones are C03)."),
+ "C11": dict(
+    engine="E1+E3", category="other", design_ref="DESIGN.md 4/C11, 3 (K27)",
+    technique="CBMC DFCC contract on the extracted input-validation block of each demo main with symbolic rank (proof) + bounded runs of the rebuilt executables incl. mpiexec with watchdog",
+    text="Gating blocks proved for every predicate valuation and every rank; the whole programs are a bounded stand-in (10 files x all option combinations x process counts 1..3/4). Found and repaired: MPI demo gated on rank 0 only (hang).",
+    note="Predicates abstracted to booleans in the proof (their contract is C10); OpenMPI behaviour in this sandbox; program_options trusted."),
+ "C15": dict(
+    engine="E3", category="exploration", design_ref="DESIGN.md 4/C15, 3 (K17)",
+    technique="bounded enforcement of the spanner contract through guarded read-only accessors (hook H1): translation, weights, partition, stretch by BFS, girth; no deductive content",
+    text="Bounded stand-in only over the exact-domain set x k in {1,2,3,5,n}; equal weights included.",
+    note="Hook H1 (PARMCB_VERIF) exposes private members read-only. Found and repaired: spanner edges carried weight 0."),
+ "C20": dict(
+    engine="E2+E1+E3", category="proof", design_ref="DESIGN.md 4/C20, 3 (K26,K27)",
+    technique="CBMC: verbatim function through the C++ front end against an executable contract of tbb::global_control; DFCC contract on the extracted --cores block; plus bounded observation of the real oneTBB and of the rebuilt demos (hook H2)",
+    text="Proof under the stated dependency contract: for all n>=1 and call sequences the limit is n after return; for all flag valuations --parallel implies the knob is called with --cores. The real-TBB observations are supporting bounded evidence. Found and repaired: limit died at return; demos called the knob only with --verbose.",
+    note="Trusted: the global_control contract model and unique_ptr stub (delete modelled explicitly because CBMC's C++ front end does not run destructors on delete), program_options presence of defaulted options; limits set by third parties assumed not stricter."),
 }
 
 NOT_APPLICABLE = {p: WIP for p in ["C%02d" % i for i in range(1, 21)] if p not in CHECKS}
